@@ -54,7 +54,8 @@ AXES = {
     "set_style_id": [None] + VALS[1:7] + ["p", "default"],
     "set_style_val": VALS,
     "lang": ["en-US"] + VALS[1:7],
-    "nlangs": [1, 2, 3],
+    # "2x": two languages, the first of which also has two positioned captions of its own (layouts no other language uses)
+    "nlangs": [1, 2, 3, "2x"],
     "lang_layout": LAYOUTS,
     "other_lang_layout": LAYOUTS[:4],
     "cap_layout": LAYOUTS,
@@ -93,7 +94,8 @@ def build(cfg):
     from pycaption import Caption, CaptionList, CaptionNode, CaptionSet
 
     caps = {}
-    langs = [cfg["lang"]] + ["fr-FR", "de-DE"][: cfg["nlangs"] - 1]
+    own = cfg["nlangs"] == "2x"
+    langs = [cfg["lang"]] + ["fr-FR", "de-DE"][: (2 if own else cfg["nlangs"]) - 1]
     for li, lang in enumerate(langs):
         cl = CaptionList(layout_info=mk_layout(cfg["lang_layout"]) if li == 0 else mk_layout(cfg["other_lang_layout"]))
         # caption 1: text, optionally with a styled span
@@ -114,8 +116,8 @@ def build(cfg):
             style = {cfg["cap_style_key"]: cfg["cap_style_val"]}
         cl.append(Caption(1000000, 2000000, nodes, style=style, layout_info=mk_layout(cfg["cap_layout"])))
         t2 = (1000000, 2000000) if cfg["concurrent"] else (3000000, 4000000)
-        cl.append(Caption(t2[0], t2[1], [CaptionNode.create_text("second " + lang[:2])], layout_info=mk_layout(cfg["other_lang_layout"]) if li else None))
-        cl.append(Caption(5000000, 6000000, [CaptionNode.create_text("third")]))
+        cl.append(Caption(t2[0], t2[1], [CaptionNode.create_text("second " + lang[:2])], layout_info=mk_layout(cfg["other_lang_layout"]) if li else (mk_layout(LAYOUTS[1]) if own else None)))
+        cl.append(Caption(5000000, 6000000, [CaptionNode.create_text("third")], layout_info=mk_layout(LAYOUTS[3]) if own and not li else None))
         caps[lang] = cl
     cs = CaptionSet(caps)
     styles = {}
